@@ -1,1 +1,338 @@
-//! instrumented streams
+//! Instrumented streams: the harness owns how many bytes each call transfers and which call fails.
+use std::collections::HashMap;
+use std::io::{self, Read, Seek, SeekFrom, Write};
+use std::sync::atomic::{AtomicU64, AtomicUsize, Ordering};
+use std::sync::{Arc, Mutex};
+
+/// Reader returning at most `schedule[i % len]` bytes on its i-th non-empty read, and never
+/// crossing a position in `cuts` (sorted absolute positions).
+pub struct ChunkReader<R> {
+    pub inner: R,
+    pub schedule: Vec<usize>,
+    pub cuts: Vec<u64>,
+    pub i: usize,
+    pub pos: u64,
+    pub short_reads: Arc<AtomicU64>,
+}
+impl<R> ChunkReader<R> {
+    pub fn new(inner: R, schedule: Vec<usize>, cuts: Vec<u64>) -> Self {
+        ChunkReader { inner, schedule, cuts, i: 0, pos: 0, short_reads: Arc::new(AtomicU64::new(0)) }
+    }
+}
+impl<R: Read> Read for ChunkReader<R> {
+    fn read(&mut self, buf: &mut [u8]) -> io::Result<usize> {
+        if buf.is_empty() {
+            return self.inner.read(buf);
+        }
+        let mut n = buf.len();
+        if !self.schedule.is_empty() {
+            let s = self.schedule[self.i % self.schedule.len()].max(1);
+            self.i += 1;
+            n = n.min(s);
+        }
+        if let Some(&c) = self.cuts.iter().find(|&&c| c > self.pos) {
+            n = n.min((c - self.pos) as usize);
+        }
+        let got = self.inner.read(&mut buf[..n])?;
+        if got < buf.len() && got > 0 {
+            self.short_reads.fetch_add(1, Ordering::Relaxed);
+        }
+        self.pos += got as u64;
+        Ok(got)
+    }
+}
+impl<R: Seek> Seek for ChunkReader<R> {
+    fn seek(&mut self, p: SeekFrom) -> io::Result<u64> {
+        let r = self.inner.seek(p)?;
+        self.pos = r;
+        Ok(r)
+    }
+}
+
+/// Writer accepting at most `schedule[i % len]` (>=1) bytes per write call.
+pub struct ShortWriter<W> {
+    pub inner: W,
+    pub schedule: Vec<usize>,
+    pub i: usize,
+    pub short_writes: u64,
+}
+impl<W> ShortWriter<W> {
+    pub fn new(inner: W, schedule: Vec<usize>) -> Self {
+        ShortWriter { inner, schedule, i: 0, short_writes: 0 }
+    }
+}
+impl<W: Write> Write for ShortWriter<W> {
+    fn write(&mut self, buf: &[u8]) -> io::Result<usize> {
+        if buf.is_empty() || self.schedule.is_empty() {
+            return self.inner.write(buf);
+        }
+        let s = self.schedule[self.i % self.schedule.len()].max(1);
+        self.i += 1;
+        let n = buf.len().min(s);
+        if n < buf.len() {
+            self.short_writes += 1;
+        }
+        self.inner.write(&buf[..n])
+    }
+    fn flush(&mut self) -> io::Result<()> {
+        self.inner.flush()
+    }
+}
+impl<W: Seek> Seek for ShortWriter<W> {
+    fn seek(&mut self, p: SeekFrom) -> io::Result<u64> {
+        self.inner.seek(p)
+    }
+}
+impl<W: Read> Read for ShortWriter<W> {
+    fn read(&mut self, buf: &mut [u8]) -> io::Result<usize> {
+        self.inner.read(buf)
+    }
+}
+
+pub const K_READ: u8 = 0;
+pub const K_WRITE: u8 = 1;
+pub const K_FLUSH: u8 = 2;
+pub const K_SEEK: u8 = 3;
+
+#[derive(Default)]
+pub struct FaultState {
+    pub ops: AtomicUsize,
+    /// index of the I/O call to fail (usize::MAX = never)
+    pub fail_at: AtomicUsize,
+    pub sticky: std::sync::atomic::AtomicBool,
+    pub fired: AtomicUsize,
+    pub kinds: Mutex<Vec<u8>>,
+    pub record: std::sync::atomic::AtomicBool,
+}
+impl FaultState {
+    pub fn new(fail_at: usize, sticky: bool, record: bool) -> Arc<FaultState> {
+        Arc::new(FaultState {
+            ops: AtomicUsize::new(0),
+            fail_at: AtomicUsize::new(fail_at),
+            sticky: std::sync::atomic::AtomicBool::new(sticky),
+            fired: AtomicUsize::new(0),
+            kinds: Mutex::new(Vec::new()),
+            record: std::sync::atomic::AtomicBool::new(record),
+        })
+    }
+    fn op(&self, kind: u8) -> io::Result<()> {
+        // never inject while unwinding: a failing stream inside a Drop during a panic would turn
+        // a reported panic into an abort and hide the original failure
+        if std::thread::panicking() {
+            return Ok(());
+        }
+        let i = self.ops.fetch_add(1, Ordering::Relaxed);
+        if self.record.load(Ordering::Relaxed) {
+            self.kinds.lock().unwrap().push(kind);
+        }
+        let at = self.fail_at.load(Ordering::Relaxed);
+        if i == at || (self.sticky.load(Ordering::Relaxed) && at != usize::MAX && i > at) {
+            self.fired.fetch_add(1, Ordering::Relaxed);
+            return Err(io::Error::new(io::ErrorKind::Other, "injected fault"));
+        }
+        Ok(())
+    }
+    pub fn count(&self) -> usize {
+        self.ops.load(Ordering::Relaxed)
+    }
+}
+
+/// Fails the k-th I/O call (read / write / flush / seek counted together).
+pub struct FaultIo<T> {
+    pub inner: T,
+    pub st: Arc<FaultState>,
+}
+impl<T> FaultIo<T> {
+    pub fn new(inner: T, st: Arc<FaultState>) -> Self {
+        FaultIo { inner, st }
+    }
+}
+impl<T: Read> Read for FaultIo<T> {
+    fn read(&mut self, buf: &mut [u8]) -> io::Result<usize> {
+        self.st.op(K_READ)?;
+        self.inner.read(buf)
+    }
+}
+impl<T: Write> Write for FaultIo<T> {
+    fn write(&mut self, buf: &[u8]) -> io::Result<usize> {
+        self.st.op(K_WRITE)?;
+        self.inner.write(buf)
+    }
+    fn flush(&mut self) -> io::Result<()> {
+        self.st.op(K_FLUSH)?;
+        self.inner.flush()
+    }
+}
+impl<T: Seek> Seek for FaultIo<T> {
+    fn seek(&mut self, p: SeekFrom) -> io::Result<u64> {
+        self.st.op(K_SEEK)?;
+        self.inner.seek(p)
+    }
+}
+
+/// Reader without Seek (forces the streaming code path at the type level).
+pub struct NoSeek<R>(pub R);
+impl<R: Read> Read for NoSeek<R> {
+    fn read(&mut self, buf: &mut [u8]) -> io::Result<usize> {
+        self.0.read(buf)
+    }
+}
+
+// ---------------------------------------------------------------- sparse in-memory file
+const PAGE: usize = 1 << 16;
+enum Page {
+    Uniform(u8),
+    Data(Box<[u8]>),
+}
+/// Read+Write+Seek in-memory file with 64 KiB pages; pages of one repeated byte cost one byte,
+/// so multi-GiB zero / constant runs are cheap.
+pub struct SparseFile {
+    pages: HashMap<u64, Page>,
+    pub len: u64,
+    pub pos: u64,
+}
+impl Default for SparseFile {
+    fn default() -> Self {
+        Self::new()
+    }
+}
+impl SparseFile {
+    pub fn new() -> Self {
+        SparseFile { pages: HashMap::new(), len: 0, pos: 0 }
+    }
+    pub fn at_position(pos: u64) -> Self {
+        SparseFile { pages: HashMap::new(), len: pos, pos }
+    }
+    fn byte_page(&self, idx: u64) -> Option<&Page> {
+        self.pages.get(&idx)
+    }
+    pub fn read_at(&self, off: u64, out: &mut [u8]) {
+        let mut done = 0usize;
+        while done < out.len() {
+            let p = off + done as u64;
+            let (pi, po) = (p / PAGE as u64, (p % PAGE as u64) as usize);
+            let n = (PAGE - po).min(out.len() - done);
+            match self.byte_page(pi) {
+                None => out[done..done + n].fill(0),
+                Some(Page::Uniform(b)) => out[done..done + n].fill(*b),
+                Some(Page::Data(d)) => out[done..done + n].copy_from_slice(&d[po..po + n]),
+            }
+            done += n;
+        }
+    }
+    pub fn resident_pages(&self) -> usize {
+        self.pages.values().filter(|p| matches!(p, Page::Data(_))).count()
+    }
+}
+impl Read for SparseFile {
+    fn read(&mut self, buf: &mut [u8]) -> io::Result<usize> {
+        if self.pos >= self.len {
+            return Ok(0);
+        }
+        let n = (buf.len() as u64).min(self.len - self.pos) as usize;
+        let pos = self.pos;
+        self.read_at(pos, &mut buf[..n]);
+        self.pos += n as u64;
+        Ok(n)
+    }
+}
+impl Write for SparseFile {
+    fn write(&mut self, buf: &[u8]) -> io::Result<usize> {
+        let mut done = 0usize;
+        while done < buf.len() {
+            let p = self.pos + done as u64;
+            let (pi, po) = (p / PAGE as u64, (p % PAGE as u64) as usize);
+            let n = (PAGE - po).min(buf.len() - done);
+            let chunk = &buf[done..done + n];
+            let uniform = chunk.iter().all(|&b| b == chunk[0]);
+            if n == PAGE && uniform {
+                if chunk[0] == 0 {
+                    self.pages.remove(&pi);
+                } else {
+                    self.pages.insert(pi, Page::Uniform(chunk[0]));
+                }
+            } else {
+                let cur = self.pages.get(&pi);
+                let same = match cur {
+                    None => uniform && chunk[0] == 0,
+                    Some(Page::Uniform(b)) => uniform && chunk[0] == *b,
+                    Some(Page::Data(_)) => false,
+                };
+                if !same {
+                    let mut d: Box<[u8]> = match self.pages.remove(&pi) {
+                        Some(Page::Data(d)) => d,
+                        Some(Page::Uniform(b)) => vec![b; PAGE].into_boxed_slice(),
+                        None => vec![0u8; PAGE].into_boxed_slice(),
+                    };
+                    d[po..po + n].copy_from_slice(chunk);
+                    self.pages.insert(pi, Page::Data(d));
+                }
+            }
+            done += n;
+        }
+        self.pos += buf.len() as u64;
+        self.len = self.len.max(self.pos);
+        Ok(buf.len())
+    }
+    fn flush(&mut self) -> io::Result<()> {
+        Ok(())
+    }
+}
+impl Seek for SparseFile {
+    fn seek(&mut self, p: SeekFrom) -> io::Result<u64> {
+        let np: i128 = match p {
+            SeekFrom::Start(s) => s as i128,
+            SeekFrom::End(o) => self.len as i128 + o as i128,
+            SeekFrom::Current(o) => self.pos as i128 + o as i128,
+        };
+        if np < 0 || np > u64::MAX as i128 {
+            return Err(io::Error::new(io::ErrorKind::InvalidInput, "seek before start"));
+        }
+        self.pos = np as u64;
+        Ok(self.pos)
+    }
+}
+impl crate::refzip::parse::Src for SparseFile {
+    fn size(&self) -> u64 {
+        self.len
+    }
+    fn at(&self, off: u64, len: usize) -> Result<Vec<u8>, String> {
+        if off.checked_add(len as u64).map(|e| e > self.len).unwrap_or(true) {
+            return Err(format!("read of {len} bytes at {off} runs past the end ({})", self.len));
+        }
+        let mut v = vec![0u8; len];
+        self.read_at(off, &mut v);
+        Ok(v)
+    }
+}
+
+/// `&mut SparseFile`-like shared handle so the file survives the ZipWriter that owns the sink.
+pub struct Shared<T>(pub Arc<Mutex<T>>);
+impl<T> Clone for Shared<T> {
+    fn clone(&self) -> Self {
+        Shared(self.0.clone())
+    }
+}
+impl<T> Shared<T> {
+    pub fn new(t: T) -> Self {
+        Shared(Arc::new(Mutex::new(t)))
+    }
+}
+impl<T: Read> Read for Shared<T> {
+    fn read(&mut self, buf: &mut [u8]) -> io::Result<usize> {
+        self.0.lock().unwrap().read(buf)
+    }
+}
+impl<T: Write> Write for Shared<T> {
+    fn write(&mut self, buf: &[u8]) -> io::Result<usize> {
+        self.0.lock().unwrap().write(buf)
+    }
+    fn flush(&mut self) -> io::Result<()> {
+        self.0.lock().unwrap().flush()
+    }
+}
+impl<T: Seek> Seek for Shared<T> {
+    fn seek(&mut self, p: SeekFrom) -> io::Result<u64> {
+        self.0.lock().unwrap().seek(p)
+    }
+}
